@@ -284,6 +284,9 @@ def generate(seed, tier):
     if sw.chance(.35):
         from ..world import add_named_block
         add_named_block(Rng(seed, 'namedblock'), world)
+    if sw.chance(.35):
+        from ..world import add_sparse_range
+        add_sparse_range(Rng(seed, 'sparse'), world)
     add_cover_of_array(Rng(seed, 'cover'), world)
     frng = Rng(seed, 'fault')
     # SIMFAULT wrappers around some formulas
